@@ -115,6 +115,30 @@ def case(draw):
     if n >= 3 and draw(st.booleans()):
         lines[draw(st.integers(0, n - 1))] = lines[draw(st.integers(0, n - 1))]      # a duplicate line
     cmds = [draw(command(i)) for i in range(draw(st.integers(1, 25)))]
+    if n >= 3 and draw(st.integers(0, 2)) == 0:
+        # mark phrase: set a mark on line N, change the number of lines above it, then use the mark
+        m = draw(st.sampled_from("ab"))
+        N = draw(st.integers(2, n))
+        up = draw(st.integers(1, N - 1))
+        edit = draw(st.sampled_from([
+            {"c": "d", "a": [["", term(["n", up])]], "r": ""},
+            {"c": "d", "a": [["", term(["n", 1])], [",", term(["n", up])]], "r": "a"},
+            {"c": "a", "a": [["", term(["n", up - 1])]], "blk": ["mk.0", "mk.1"]},
+            {"c": "i", "a": [["", term(["n", up])]], "blk": ["mk.2"]},
+            {"c": "c", "a": [["", term(["n", up])]], "blk": ["mk.3", "mk.4", "mk.5"]},
+            {"c": "c", "a": [["", term(["n", up])]], "blk": []},
+            {"c": "pu", "a": [["", term(["n", up - 1])]], "r": ""},
+        ]))
+        use = draw(st.sampled_from([
+            {"c": "p", "a": [["", term(["m", m])]]},
+            {"c": "=", "a": [["", term(["m", m])]]},
+            {"c": "d", "a": [["", term(["m", m])]], "r": ""},
+            {"c": "p", "a": [["", term(["m", m], ["-1"])], [",", term(["m", m], ["+1"])]]},
+            {"c": "a", "a": [["", term(["m", m])]], "blk": ["mk.9"]},
+            {"c": "p", "a": [["", term(["n", 1])], [";", term(["m", m])]]},
+        ]))
+        at = draw(st.integers(0, len(cmds)))
+        cmds[at:at] = [{"c": "k", "a": [["", term(["n", N])]], "m": m}, edit, use]
     return {"lines": lines, "cmds": cmds, "wa": draw(st.booleans())}
 
 
